@@ -132,6 +132,39 @@ func MonC05(c *MonCtx) {
 			}
 		}
 	}
+	if c.Out.Ev.K == "R_ers" && !hasFault(c.Out.Log) && c.Out.RR.Err == nil {
+		// the promotion rule counts from the last canary pod restart as the canary replica set records it: a fault-free
+		// full sync of the canary must record the latest restart among its up-to-date pods (of any of their containers)
+		rns, rname := split(c.Out.Ev.A)
+		if v := BuildSyncView(c.Pre, c.Out.Log, rns, rname); v != nil && v.Role == "canary" && v.FullSync && v.EDS.Spec.Strategy.Canary != nil {
+			var latest time.Time
+			for n := range v.Canary {
+				k := v.Keeper[n]
+				if k == nil || k.DeletionTimestamp != nil || PodHash(k) != v.RS.Spec.TemplateGeneration {
+					continue
+				}
+				for _, cs := range k.Status.ContainerStatuses {
+					if cs.RestartCount > 0 && cs.LastTerminationState.Terminated != nil && cs.LastTerminationState.Terminated.FinishedAt.Time.After(latest) {
+						latest = cs.LastTerminationState.Terminated.FinishedAt.Time
+					}
+				}
+			}
+			if !latest.IsZero() {
+				c.Antecedent("C05/restart-recorded")
+				post := c.Out.Next.ERS(rns, rname)
+				var rec time.Time
+				if post != nil {
+					if rc := ERSCond(post, v1.ConditionTypePodRestarting); rc != nil {
+						rec = rc.LastUpdateTime.Time
+					}
+				}
+				if rec.Before(latest.Truncate(time.Second)) {
+					c.Violate("C05", "C05/restart-recorded: a full sync of the canary replica set did not record the latest restart of its pods (noRestartsDuration would be counted from an older one)",
+						fmt.Sprintf("latest restart %s, recorded %s", latest.UTC().Format(time.RFC3339), rec.UTC().Format(time.RFC3339)))
+				}
+			}
+		}
+	}
 	if c.Out.Ev.K != "R_eds" {
 		return
 	}
